@@ -77,6 +77,10 @@ let close impl (model : q) tol =
    let d = if qle_bool qz d then d else qopp d in
    qle_bool d (q_of_float tol))
 
+let avals : (string, (string * q list) list) Hashtbl.t = Hashtbl.create 64
+let assoc_first : (string, string * q * int) Hashtbl.t = Hashtbl.create 64
+let assoc_total = ref 0
+let assoc_pairs = ref 0
 let cur_T : q list list ref = ref []
 let cur_X : q list list ref = ref []
 let cur_id = ref ""
@@ -222,6 +226,48 @@ let process op rest =
           check_grad "grads-gradients" id false (List.concat (frows_of raw)) mraw rtol
         | _ -> failwith "bad GRADS line")
      | _ -> failwith "bad GRADS line")
+  (* ---- (extension) stage "assoc": the proved floating-point re-association bound (C09_fp_mean) evaluated in exact
+     rational arithmetic by the extracted fp_mean_okb / fp_pair_okb on the measured terms ------------------------------- *)
+  | "AVALS" ->
+    (match split_str " | " rest with
+     | [hd; b; sc; g] ->
+       let id = List.hd (split ' ' (String.trim hd)) in
+       Hashtbl.replace avals id [("bias", qs_of (strip_key "bias" b)); ("scale", qs_of (strip_key "scale" sc)); ("grads", qs_of (strip_key "grads" g))]
+     | _ -> failwith "bad AVALS line")
+  | "ASSOC" ->
+    (match split_str " = " rest with
+     | [l; r] ->
+       let id = List.hd (split ' ' (String.trim l)) in
+       let fs = fields l in
+       let case = match String.index_opt id '.' with Some i -> String.sub id 0 i | None -> id in
+       let obj = fld fs "obj" in
+       let zeros = int_of_string (fld fs "zeros") in
+       let vs = (try List.assoc obj (Hashtbl.find avals case) with Not_found -> failwith ("no AVALS line for case " ^ case)) in
+       let fx = parse_float r in
+       incr assoc_total;
+       if not (Float.is_finite fx) then report "PROPFAIL" "assoc-mean" id (Printf.sprintf "obj=%s value %h is not finite" obj fx)
+       else begin
+         let k = zi (List.length vs + zeros) in
+         let qfx = q_of_float fx in
+         if not (fp_mean_okb k vs qfx) then
+           report "PROPFAIL" "assoc-mean" id
+             (Printf.sprintf "obj=%s |value - mean(terms)| exceeds the proved bound gamma_k mean|terms| + 2^-1075 (k=%d): impl=%h exact-mean=%h bound=%h terms=%s"
+                obj (List.length vs + zeros) fx
+                (float_of_q (qdiv (qsum vs) (inject_Z (zi (List.length vs))))) (float_of_q (fp_mean_bound k vs))
+                (String.concat "," (List.map (fun v -> Printf.sprintf "%h" (float_of_q v)) vs)));
+         (* two configurations of the same case: any two reduction trees over the same terms *)
+         let key = case ^ "/" ^ obj in
+         (match Hashtbl.find_opt assoc_first key with
+          | None -> Hashtbl.replace assoc_first key (id, qfx, List.length vs + zeros)
+          | Some (id0, q0, k0) ->
+            incr assoc_pairs;
+            let kk = zi (max k0 (List.length vs + zeros)) in
+            if not (fp_pair_okb kk vs q0 qfx) then
+              report "PROPFAIL" "assoc-pair" id
+                (Printf.sprintf "obj=%s configurations %s and %s differ by more than 2 (gamma_k mean|terms| + 2^-1075): %h vs %h" obj id0 id
+                   (float_of_q q0) fx))
+       end
+     | _ -> failwith "bad ASSOC line")
   | _ -> ()
 
 let () =
@@ -238,4 +284,5 @@ let () =
            report "MISMATCH" "driver" op ("cannot process line: " ^ msg ^ " :: " ^ String.sub rest 0 (min 80 (String.length rest))))
     done
   with End_of_file -> ());
-  Printf.printf "MODEL-DONE checked=%d mismatches=%d coordinates=%d ambiguous_skipped=%d\n" !total !mism !coords !skipped_amb
+  Printf.printf "MODEL-DONE checked=%d mismatches=%d coordinates=%d ambiguous_skipped=%d assoc=%d assoc_pairs=%d\n" !total !mism !coords !skipped_amb
+    !assoc_total !assoc_pairs
